@@ -283,6 +283,14 @@ Section DefaultLCComplete.
     destruct (groups_aux qs [] [] qs eq_refl G0 Ho pl pt labels Hin) as [_ H]. exact (H l Hl).
   Qed.
 
+  Lemma groups_nonempty qs : one_point_per_label qs ->
+    forall pl pt labels, In (pl, (pt, labels)) (groups qs) -> labels <> [].
+  Proof.
+    intros Ho pl pt labels Hin. unfold groups in Hin.
+    assert (G0 : GInv [] []) by (intros a b c []).
+    destruct (groups_aux qs [] [] qs eq_refl G0 Ho pl pt labels Hin) as [H _]. exact H.
+  Qed.
+
   (* ---- the batch verifier's view of the evaluations ---- *)
   Lemma lookup_eval_pk l pt : forall pev : list (pkey * F),
     lookup_eval l pt (map (fun kv => (fst (fst kv), snd (fst kv), snd kv)) pev) = lookup_pk (l, pt) pev.
@@ -355,3 +363,64 @@ Section DefaultLCComplete.
         unfold item_value. rewrite El'. destruct q as [lab [pl pt]]. cbn [fst snd] in *. exact Ev'.
   Qed.
 End DefaultLCComplete.
+
+(* the same with separate prover / verifier transcript states related by a simulation, and a side condition on the points *)
+Section DefaultLCCompleteSim.
+  Context {FO : FieldOps} {FL : FieldLaws FO}.
+  Add Field Ffield47b : FL_field.
+  Local Open Scope F_scope.
+  Variables (Comm Item Proof PSt VSt : Type).
+  Variable check : list Comm -> point -> list F -> Proof -> VSt -> res (bool * VSt).
+  Variable open : list Item -> point -> PSt -> res (Proof * PSt).
+  Variable R : Item -> Comm -> Prop.
+  Variable value : Item -> point -> F.
+  Variable sim : PSt -> VSt -> Prop.
+  Variable okpt : point -> Prop.
+  Hypothesis group_complete : forall items cs pt st vst pf st',
+    okpt pt -> Forall2 R items cs -> sim st vst -> open items pt st = Ok (pf, st') ->
+    exists vst', check cs pt (map (fun it => value it pt) items) pf vst = Ok (true, vst') /\ sim st' vst'.
+
+  Theorem default_lc_complete_sim lcs items cs eqn_qs eqn_ev st vst pfs evs st' :
+    maps_agree Comm Item R (label_map items) (label_map cs) ->
+    one_point_per_label eqn_qs ->
+    (forall q, In q eqn_qs -> okpt (snd (snd q))) ->
+    (forall q terms, In q eqn_qs -> OrdMap.lookup N.compare (fst q) (lcs_map lcs) = Some terms ->
+        lookup_pk (fst q, snd (snd q)) eqn_ev = Some (lc_value (item_value Item value (label_map items) (snd (snd q))) terms)) ->
+    sim st vst ->
+    default_open_combinations Item Proof PSt open value lcs items eqn_qs st = Ok (pfs, evs, st') ->
+    exists vst', default_check_combinations Comm Proof VSt check lcs cs eqn_qs eqn_ev pfs (Some evs) vst = Ok (true, vst') /\ sim st' vst'.
+  Proof.
+    intros Hm Ho Hok Hc Hs H. unfold default_open_combinations in H. unfold default_check_combinations.
+    set (lcm := lcs_map lcs) in *. set (pqs := lc_qs_to_poly_qs lcm eqn_qs) in *. set (im := label_map items) in *.
+    destruct (evaluate_qs Item value im pqs []) as [pev| |] eqn:Ee; cbn [bind] in H; try discriminate.
+    destruct (default_batch_open Item Proof PSt open items pqs st) as [[pfs0 st0]| |] eqn:Eb; cbn [bind fst snd] in H; try discriminate.
+    injection H as <- <- <-.
+    rewrite (transmitted_reassembled Item value im pqs pev Ee).
+    destruct (evaluate_qs_spec Item value im pqs [] pev Ee) as [Hev _].
+    assert (Hpq : forall q terms c l, In q eqn_qs -> OrdMap.lookup N.compare (fst q) lcm = Some terms -> In (c, TPoly l) terms ->
+                   In (l, snd q) pqs).
+    { intros q terms c l Hq Hl Ht. unfold pqs, lc_qs_to_poly_qs. exact (poly_qs_in lcm eqn_qs [] q terms c l Hq Hl Ht). }
+    assert (Hfrom : forall x, In x pqs -> exists q, In q eqn_qs /\ snd x = snd q).
+    { intros x Hx. unfold pqs, lc_qs_to_poly_qs in Hx. destruct (poly_qs_from lcm eqn_qs [] x Hx) as [[]|H0]. exact H0. }
+    assert (Hop : one_point_per_label pqs).
+    { intros q1 q2 H1 H2 E. destruct (Hfrom q1 H1) as (e1 & He1 & E1). destruct (Hfrom q2 H2) as (e2 & He2 & E2).
+      rewrite E1, E2 in *. exact (Ho e1 e2 He1 He2 E). }
+    rewrite eqn_loop_none.
+    - apply (default_batch_complete_sim Comm Item Proof PSt VSt check open R value sim okpt group_complete items cs pqs _ st vst pfs0 st0 Hm);
+        [|exact Hs|exact Eb].
+      intros pl pt labels Hg. split.
+      + pose proof (groups_nonempty pqs Hop pl pt labels Hg) as Hne. destruct labels as [|l0 ls]; [contradiction|].
+        pose proof (groups_sound pqs Hop pl pt (l0 :: ls) l0 Hg (or_introl eq_refl)) as Hin.
+        destruct (Hfrom _ Hin) as (q & Hq & E). cbn [snd] in E. pose proof (Hok q Hq) as Hk. rewrite <- E in Hk. exact Hk.
+      + intros l it Hl Hit. rewrite lookup_eval_pk.
+        pose proof (groups_sound pqs Hop pl pt labels l Hg Hl) as Hin.
+        destruct (Hev _ Hin) as (it' & El' & Ev'). unfold qkey_of in Ev'. cbn [fst snd] in El', Ev'.
+        fold im in Hit. rewrite Hit in El'. injection El' as <-. exact Ev'.
+    - intros q terms Hq Hl. exists (lc_value (item_value Item value im (snd (snd q))) terms). split; [exact (Hc q terms Hq Hl)|].
+      rewrite (lc_rhs_value (item_value Item value im (snd (snd q))) pev (snd (snd q)) terms 0).
+      + f_equal. ring.
+      + intros c l Ht. pose proof (Hpq q terms c l Hq Hl Ht) as Hin.
+        destruct (Hev _ Hin) as (it' & El' & Ev'). unfold qkey_of in Ev'. cbn [fst snd] in El', Ev'.
+        unfold item_value. rewrite El'. destruct q as [lab [pl pt]]. cbn [fst snd] in *. exact Ev'.
+  Qed.
+End DefaultLCCompleteSim.
